@@ -37,6 +37,8 @@ def seq_len(s):
         return s[2]
     if k == 'seq_lit':
         return lit(len(s[1]), 'i')
+    if k == 'ext':
+        return op('iadd', seq_len(s[1]), s[3])
     if k in ('push_back', 'push_front', 'insert'):
         return op('iadd', seq_len(s[1]), lit(1, 'i'))
     if k in ('pop_front', 'pop_back'):
